@@ -4,6 +4,14 @@ import json, os, subprocess
 VERIF = os.path.dirname(os.path.dirname(os.path.abspath(__file__)))
 
 CLAIMED = {
+    "C01": ("DESIGN.md §4 C01",
+            "Seeded search over input streams x segmentations x histories x sizes x build configurations: grammar-generated, byte-mutated, boundary-truncated "
+            "and raw streams fed in 1-byte / small / whole / random segments with idle flushes, oversize chunks, direct SCPI_Parse lines, firmware pushes, "
+            "allocation and transport faults; a torture handler applies every Param*/ParamTo*/ParamArray*/Expr*/Result* API with exact-size buffers. Oracle: "
+            "AddressSanitizer + UBSan on the real library objects, hook H1 (stale input-buffer tail poisoned), position < length after every call, "
+            "everything consumed after a well-formed terminated stream, watchdog and a progress bound. All four builds. Exploration level.",
+            "No coverage feedback (that would be fuzzing). Intra-object overflows inside scpi_t are invisible to ASan. One host, clang 14 -O1.",
+            "deterministic simulation: seeded streams/segmentations/fault schedules under sanitizers with input-tail poisoning"),
     "C08": ("DESIGN.md §4 C08",
             "The segmentation of the byte stream is the schedule. Twin worlds built from the same knobs run the same real code: R receives the stream one "
             "byte per call, S under a seeded schedule (every family of the statement; single split points swept for short streams); handler invocations "
